@@ -61,3 +61,30 @@ package html
 //@   ensures [returns-exactly-what-RenderTo-wrote] result1 == nil ==> result0 == wcat(Wchunk, old(Wn), Wn) @C10
 //@   call RenderTo before ghost renderStart = Wn
 //@   call RenderTo before ghost Wfailed = false
+
+//@ -- the template functions (closures over ht): totality under the invariant the renderer maintains (C09).
+//@ -- html/template calls them; their preconditions are what RenderTo guarantees while Execute runs.
+//@ func (*HTMLTable).getFuncs$1
+//@   tags C09
+//@   requires ht != nil && tbl(ht.Table)
+//@   assigns new(string)
+//@   ensures [one-string-per-header-cell] htab(ht).headerRow != nil ==> len(result) == len(htab(ht).headerRow.cells)
+
+//@ func (*HTMLTable).getFuncs$3
+//@   tags C09
+//@   params r
+//@   requires r != nil && (forall i int :: {&r.cells[i]} 0 <= i && i < len(r.cells) ==> !r.cells[i].mustCalc)
+//@   assigns new(string)
+//@   ensures [one-string-per-cell] len(result) == len(r.cells)
+
+//@ func (*HTMLTable).getFuncs$4
+//@   tags C09
+//@   params i
+//@   requires i < 9223372036854775807
+//@   assigns nothing
+//@   ensures result == i + 1
+
+//@ func (*HTMLTable).getFuncs$5
+//@   tags C09
+//@   requires ht != nil && tbl(ht.Table)
+//@   ensures [a-copy-of-the-rows] fresh(result) && len(result) == len(htab(ht).rows)
